@@ -106,12 +106,14 @@ BranchWanted(n, mask) ==
 BranchRefines == kind = "branch" => BranchSelect(i, MaskOf(j, i)) = BranchWanted(i, MaskOf(j, i))
 
 \* ---- export ----------------------------------------------------------------------------------------
+\* (every exported value is a JSON object: TLC's pretty printer wraps long strings that contain no
+\* escaped quote over several lines, which the harness could not parse)
 GCRow(a) == LET js == SelectSeq([k \in 1..(NG - a + 1) |-> a + k - 1], LAMBDA b : GDefined(G[a], G[b]))
             IN [i |-> a, js |-> js, seps |-> [k \in 1..Len(js) |-> SepGC(G[a], G[js[k]])]]
 RSRow(a) == [i |-> a, dots |-> [k \in 1..(NS - a + 1) |-> SDot(S[a], S[a + k - 1])]]
 
 Export == DoExport =>
-    /\ kind = "start" => PrintT(<<"GCPTS", ToJson(G)>>) /\ PrintT(<<"RSPTS", ToJson(S)>>)
+    /\ kind = "start" => PrintT(<<"GCPTS", ToJson([pts |-> G])>>) /\ PrintT(<<"RSPTS", ToJson([pts |-> S])>>)
     /\ kind = "gc1" => PrintT(<<"GCROW", ToJson(GCRow(i))>>)
     /\ kind = "rs1" => PrintT(<<"RSROW", ToJson(RSRow(i))>>)
 =============================================================================
